@@ -11,7 +11,12 @@ Deductive kernel (dict backend):
             structural obligation), and next_uid <= _max_uid + 1 even if it does.
   BaseSession.append_messages/copy_messages/move_messages: the uid lists handed to AppendUid/CopyUid are
             the backend's return values in loop order (loop invariant).
-  SequenceSet.build: bounded (see below).
+            CopyUid gets the pairs (source uid, returned uid) with both columns strictly increasing (given that
+            get_uids addresses uids in increasing order -- its contract is part of this check -- and that successive
+            results of copy/move increase -- the kernel above), so its independent sorting keeps the pairs together.
+  maildir:  contracts/maildir.py (UID list discipline) and contracts/mdio.py (UidList.with_write really is the
+            exclusive lock of the list's lock file, held from before the read until after the write).
+  SequenceSet.build / the bytes of the response codes: bounded (harness/e2e_uids.py, real server, both backends).
 """
 import ast
 
@@ -24,6 +29,9 @@ from . import dictmbx as D
 from .dictmbx import MBX, Msg, F, lock_ctx, LockCtx
 from .modseq import ModSeq
 from . import maildir as MD        # the maildir half: UID list discipline of append/copy/move/reset (shared with C15)
+from . import mdio as IO           # ... and the lock discipline of UidList.with_write that MD's model relies on
+from . import session as SES, selected as SELM     # reporting: what AppendUid / CopyUid are built from
+from harness.e2e_uids import bounded_uids
 
 _ms_mod = ['self._highest', 'self._uids', 'self._updates', 'self._expunges', 'self._mod_seqs_order', 'self.g_pos']
 weak_update = Contract('C04', F, '_ModSequenceMapping.update', params=dict(self=ModSeq, uids=ListS(INT)),
@@ -33,6 +41,9 @@ weak_expunge = Contract('C04', F, '_ModSequenceMapping.expunge', params=dict(sel
 REG = dict(D.BASE_REGISTRY)
 REG[('ModSeq', 'update')] = weak_update
 REG[('ModSeq', 'expunge')] = weak_expunge
+for _k, _v in list(SES.REG.items()) + list(SELM.REG.items()) + list(IO.REG.items()):
+    REG.setdefault(_k, _v)
+_reporting = SES.make('C04') + [SELM.get_uids]
 
 
 def uid_inv(m):
@@ -211,12 +222,20 @@ def _bounded():
                     'every sequence of <= 2 (quick) / 3 (thorough) operations from {append x2, delete x2, update, copy, '
                     'move} on a fresh real MailboxData, then every call of append/copy/move/delete with uids 101..103, '
                     'self/other destination; the contract clauses evaluated on the observed pre/post state',
-                    H.bounded_mailbox([append, copy, move, delete]))]
+                    H.bounded_mailbox([append, copy, move, delete]))] + [
+        Bounded(f'reporting clauses on the real server ({bk})',
+                'programs of APPEND / COPY / MOVE / EXPUNGE (sequence-number and UID forms; 12 set shapes incl. '
+                'non-ascending, overlapping, `*`, out of range) by two sessions of one user on two mailboxes: every shape x '
+                '{copy, move} x {UID, seq} x {other, same mailbox}, uid continuity after expunging the highest uid, and '
+                '250 (quick) / 4000 (thorough) random programs of 2-5 commands [maildir: the first 140 / 1200]; an observer '
+                'connection dumps every mailbox before and after every command; oracle = the statement of C04 '
+                '(harness/e2e_uids.py)',
+                bounded_uids('C04', bk), decisive=False) for bk in ('dict', 'maildir++', 'maildirfs')]
 
 
 PROPERTY = Property(
     'C04', 'UIDs strictly increasing, never reused, truthfully reported',
-    contracts=[append, copy, move, delete, snapshot_weak, snapshot_exact] + MD.CONTRACTS,
+    contracts=[append, copy, move, delete, snapshot_weak, snapshot_exact] + MD.CONTRACTS + IO.CONTRACTS + _reporting,
     registry=REG, bounded=_bounded(),
     structural=[Structural('NoYieldUnderLock', no_yield_under_lock),
                 Structural('mutators_covered', mutators_covered)],
